@@ -46,11 +46,13 @@ pub struct Opts {
     pub directives: bool,
     /// simple expressions only: no postfix chains, anonymous routines, generics, nested sets
     pub simple: bool,
+    /// mostly declaration sections, records (with variant parts) emphasised
+    pub decl_heavy: bool,
 }
 
 impl Default for Opts {
     fn default() -> Self {
-        Opts { mlstr: false, asm: false, anon: true, generics: true, ascii_only: false, directives: true, simple: false }
+        Opts { mlstr: false, asm: false, anon: true, generics: true, ascii_only: false, directives: true, simple: false, decl_heavy: false }
     }
 }
 
@@ -1259,7 +1261,10 @@ impl<'a, 'b> B<'a, 'b> {
                 let last = self.p.toks.len() - 1;
                 let _ = last;
             }
-            let which = self.t.weighted(&[4, 4, 3, 2, 2, 2, 1, 1, 1]);
+            let mut which = self.t.weighted(&[4, 4, 3, 2, 2, 2, 1, 1, 1]);
+            if self.opts.decl_heavy && self.t.chance(1, 2) {
+                which = 2;
+            }
             if self.opts.generics && matches!(which, 1 | 2 | 5) && self.t.chance(1, 5) {
                 self.tag("generic-type");
                 self.op("<");
@@ -1318,7 +1323,7 @@ impl<'a, 'b> B<'a, 'b> {
                         self.op(";");
                     }
                     self.depth -= 1;
-                    if self.t.chance(1, 3) {
+                    if self.t.chance(if self.opts.decl_heavy { 2 } else { 1 }, 3) {
                         self.tag("variant-record");
                         self.nl();
                         self.kw("case");
@@ -1333,7 +1338,7 @@ impl<'a, 'b> B<'a, 'b> {
                         for a in 0..arms {
                             self.nl();
                             // one or several labels per arm, numbers or (long) constant names
-                            let labels = if self.t.chance(1, 2) { 1 } else { 2 + self.t.below(3) };
+                            let labels = if self.t.chance(1, 2) { 1 } else { 2 + self.t.below(5) };
                             for l in 0..labels {
                                 if l > 0 {
                                     self.op(",");
@@ -1341,7 +1346,7 @@ impl<'a, 'b> B<'a, 'b> {
                                 if self.t.chance(1, 2) {
                                     self.push(&(a * 4 + l).to_string(), Kind::Number);
                                 } else {
-                                    let n = *self.t.pick(&["AlphaKindLabel", "BetaKindLabel", "GammaKindLabel", "ckA", "ckB", "DeltaKind"]);
+                                    let n = *self.t.pick(&["AlphaKindLabel", "BetaKindLabel", "GammaKindLabel", "ckA", "DeltaKindLabel", "EpsilonKind", "ckB", "ZetaKindOfLabel"]);
                                     self.named(n);
                                 }
                             }
@@ -1590,6 +1595,10 @@ impl<'a, 'b> B<'a, 'b> {
     }
 
     fn decl_one(&mut self, interface: bool) {
+        if self.opts.decl_heavy && self.t.chance(1, 2) {
+            self.type_section();
+            return;
+        }
         {
             match self.t.below(if interface { 5 } else { 7 }) {
                 4 if interface => self.resourcestring_section(),
@@ -1639,7 +1648,8 @@ impl<'a, 'b> B<'a, 'b> {
     }
 
     pub fn file(&mut self) {
-        match self.t.weighted(&[6, 3, 4, 2, 1, 1]) {
+        let kind = if self.opts.decl_heavy { 1 } else { self.t.weighted(&[6, 3, 4, 2, 1, 1]) };
+        match kind {
             4 => {
                 self.tag("file:package");
                 self.nl();
